@@ -162,6 +162,16 @@ func corpus() []corpusEntry {
 		{"F-108c -> set(dynamic)", tv(lv(cty.True), tv(nv(1)), tv(cty.DynamicVal)), m.SetOf(tD)},
 		{"F-108c object -> map(dynamic)", ov("a", lv(cty.True), "b", tv(nv(1)), "c", tv(cty.DynamicVal)), m.MapOf(tD)},
 		{"F-108c seed-7 witness", cty.NullVal(cty.Tuple([]cty.Type{cty.Tuple([]cty.Type{cty.Number}), cty.Tuple([]cty.Type{cty.DynamicPseudoType, cty.DynamicPseudoType}), cty.List(cty.Bool)})), m.ListOf(tD)},
+		// --- members of one collection share a type, not their keys: each member converts as it does alone
+		{"list of maps with different keys -> list(object, optional + required)", lv(mv("a", sv("x"), "b", sv("y")), mv("a", sv("z")), mv("a", sv("w"), "c", sv("v"))), m.ListOf(obj("a", tS, "b?", tS, "c?", tS))},
+		{"set of maps with different keys -> set(object)", setv(mv("a", sv("x"), "b", sv("y")), mv("a", sv("z"))), m.SetOf(obj("a", tS, "b?", tS))},
+		{"map of maps with different keys -> map(object)", mv("p", mv("a", sv("1"), "b", sv("2")), "q", mv("a", sv("3"))), m.MapOf(obj("a", tN, "b?", tN))},
+		{"tuple of maps with different keys -> list(object)", tv(mv("a", sv("x"), "b", sv("y")), mv("a", sv("z"))), m.ListOf(obj("a", tS, "b?", tS))},
+		{"object of maps with different keys -> map(object)", ov("p", mv("a", sv("x"), "b", sv("y")), "q", mv("a", sv("z"))), m.MapOf(obj("a", tS, "b?", tS))},
+		{"list of maps, later one lacks a required attribute", lv(mv("a", sv("x"), "b", sv("y")), mv("a", sv("z"))), m.ListOf(obj("a", tS, "b", tS))},
+		{"list of maps -> set(object)", lv(mv("b", cty.True), mv("a", cty.False)), m.SetOf(obj("a?", tB, "b?", tB))},
+		{"list of objects with nulls -> list(object with optional)", lv(ov("a", sv("x"), "b", cty.NullVal(cty.String)), ov("a", cty.NullVal(cty.String), "b", sv("y"))), m.ListOf(obj("a", tS, "b", tS, "c?", tN))},
+		{"list of lists of maps -> list(list(object))", lv(lv(mv("a", sv("x"), "b", sv("y"))), lv(mv("a", sv("z")))), m.ListOf(m.ListOf(obj("a", tS, "b?", tS)))},
 		{"list -> tuple (docs chart: unsafe)", lv(sv("a")), m.TupleOf(tS)},
 		{"set -> tuple (docs chart: unsafe)", setv(sv("a")), m.TupleOf(tS)},
 		// --- sets
